@@ -47,6 +47,10 @@ def check(pid, tier, replay=None):
         for ifc, pos in (("rating", 1), ("rating", 2), ("abmf", 0)):
             for f0 in ("slow", "drop"):
                 cases.append(dict(id="C19-rech-%s%d-%s" % (ifc, pos, f0), iface=ifc, fates=[f0, "prompt", "prompt"], pos=pos, dense=False, recharge=True))
+        # two sessions of the subscriber that number their invocations independently, served in turn
+        for ifc, pos in (("rating", 1), ("rating", 2), ("abmf", 0)):
+            for f0 in ("late_idle", "drop"):
+                cases.append(dict(id="C19-alt-%s%d-%s" % (ifc, pos, f0), iface=ifc, fates=[f0, "prompt", "prompt", "prompt"], pos=pos, dense=False, alt=True))
         mode, chunk, nw = "link", 1, 16
     else:
         if tier == "quick":
